@@ -214,6 +214,8 @@ def random_case(rng, kinds=KINDS, allow_async=True, max_levels=3, max_group=3, m
                 if raising_errors and rng.random() < 0.15:
                     case["msg"].append([cid, R(exc(600 + cid, rng.random() < 0.7))])
                 a = rng.choices(keys, weights)[0]
+                if c["coroFn"] and a in ("CT", "CF", "CR"):
+                    a = a[1:]  # a coroutine function returning a coroutine object is not a meaningful condition
                 v = 100 + cid
                 if a == "T":
                     ans = T(v)
@@ -246,6 +248,8 @@ def random_case(rng, kinds=KINDS, allow_async=True, max_levels=3, max_group=3, m
                 a = T(200 + s["id"])
             elif r < 0.95:
                 a = R(exc(950 + s["id"], rng.random() < 0.7))
+            elif s["coroFn"]:
+                a = T(200 + s["id"])
             else:
                 a = CORO(T(200 + s["id"]))
             case["capture"].append([s["id"], a])
@@ -300,3 +304,40 @@ def valid(case):
         prev = bool(lv["pre"]) if i == 0 else (prev and bool(lv["pre"]))
     names = [s["name"] for lv in case["levels"] for s in lv["snaps"]]
     return len(names) == len(set(names))
+
+
+def exhaustive_post(kinds, asyncs, max_levels, max_posts_total, bodies=None):
+    """Every placement of <= max_posts_total postconditions on a chain x every truth assignment x body outcomes."""
+    bodies = bodies or [{"ret": {"v": 7}}, {"ret": {"v": 10}}, {"raises": {"e": exc(900, True)}},
+                        {"raises": {"e": exc(901, False)}}]
+    for kind in kinds:
+        nl = 1 if kind in ("function", "init") else max_levels
+        for async_ in asyncs:
+            if async_ and kind not in ASYNC_KINDS:
+                continue
+            for n in range(1, nl + 1):
+                for sizes in itertools.product(range(0, max_posts_total + 1), repeat=n):
+                    tot = sum(sizes)
+                    if tot == 0 or tot > max_posts_total or sizes[-1] == 0 and n > 1 and sum(sizes[:-1]) == 0:
+                        continue
+                    for bits in itertools.product([True, False], repeat=tot):
+                        for body in bodies:
+                            for with_snap in (False, True):
+                                levels = []
+                                case = base_case(kind, async_, levels)
+                                pn, _ = params_of(kind)
+                                cid = 0
+                                for li, sz in enumerate(sizes):
+                                    lv = {"pre": [], "snaps": [], "posts": []}
+                                    for _ in range(sz):
+                                        cid += 1
+                                        args = ["result"] + ([pn[-1]] if pn else []) + (["OLD"] if with_snap else [])
+                                        lv["posts"].append(contract(cid, args, err={"cls": {"subBase": True, "truthy": True}}))
+                                        case["cond"].append([cid, T(100 + cid) if bits[cid - 1] else F(100 + cid)])
+                                    if with_snap and sz > 0 and not any(l["snaps"] for l in levels):
+                                        lv["snaps"].append(snapshot(1, "s1", [pn[0]] if pn else []))
+                                    levels.append(lv)
+                                case["body"] = body
+                                if kind == "init" and "ret" in body:
+                                    case["body"] = {"ret": {"v": 7}}
+                                yield fill_oracle_defaults(case)
